@@ -353,11 +353,32 @@ def _replay_real_app(args: dict) -> str | None:
     return None
 
 
+def _canon(args: dict) -> dict:
+    """Item arguments -> the configuration the item builds (same mapping as the condition bodies)."""
+    if "rich" in args:
+        if args["rich"]:
+            return dict(mreq=1000, mresp=2000, mext=3000, mup=4000, ttl=60, storage=True, provider=True, compression=True, sticky=True, echo=True, proof=True, introspect=True)
+        return dict(mreq=None, mresp=None, mext=None, mup=None, ttl=300, compression=False)
+    out = dict(args)
+    if "has_req" in args:
+        out.update(mreq=1001 if args["has_req"] else None, mresp=2002 if args["has_resp"] else None, mext=3003 if args["has_ext"] else None)
+        out.setdefault("compression", True)
+        out.setdefault("ttl", 60 if "storage" in args else 300)
+    if "has_up" in args:
+        out["mup"] = 4004 if args["has_up"] else None
+    out.setdefault("ttl", 300)
+    return out
+
+
+def _replay_item(args: dict) -> str | None:
+    return _replay_real_app(_canon(args))
+
+
 _STUBS = ["falcon req/resp + HTTP client := attribute fakes", "time.monotonic := fixed clock while http_capabilities runs", "falcon.App := recorder of middleware/routes (no route compilation)"]
 _SIG = lambda args, conc: "C40:capability-headers-differ-from-configuration"  # noqa: E731
 
 
-@cond(q=60, t=300, stubs=_STUBS, encoded=ENCODED, replay=_replay_real_app, signature=_SIG,
+@cond(q=60, t=300, stubs=_STUBS, encoded=ENCODED, replay=_replay_item, signature=_SIG,
       bound="which of the four byte limits are configured (16 combinations) x upload provider on/off; configured values fixed and distinct")
 def limit_headers_present_iff_configured(has_req: bool, has_resp: bool, has_ext: bool, has_up: bool, provider: bool) -> bool:
     """
@@ -386,7 +407,7 @@ def each_numeric_value_rendered_and_read_back(which: int, n: int) -> bool:
     return _check(a["mreq"], a["mresp"], a["mext"], a["mup"], a["ttl"], False, a["provider"], True, a["sticky"], False, False, False, 0, True)
 
 
-@cond(q=60, t=300, stubs=_STUBS, encoded=ENCODED, replay=_replay_real_app, signature=_SIG,
+@cond(q=60, t=300, stubs=_STUBS, encoded=ENCODED, replay=_replay_item, signature=_SIG,
       bound="storage, upload provider (with/without max_upload_bytes), compression, sticky, echo headers, proof-required, introspection: all 256 combinations; other limits unset; ttl fixed")
 def features_advertised_and_read_back(storage: bool, provider: bool, has_up: bool, compression: bool, sticky: bool, echo: bool, proof: bool, introspect: bool) -> bool:
     """
@@ -395,7 +416,7 @@ def features_advertised_and_read_back(storage: bool, provider: bool, has_up: boo
     return _check(None, None, None, 4004 if has_up else None, 300, storage, provider, compression, sticky, echo, proof, introspect, 0, True)
 
 
-@cond(q=60, t=300, stubs=_STUBS, encoded=ENCODED, replay=_replay_real_app, signature=_SIG,
+@cond(q=60, t=300, stubs=_STUBS, encoded=ENCODED, replay=_replay_item, signature=_SIG,
       bound="any of 6 request methods x success flag x {everything configured, nothing configured}")
 def every_response_carries_all_headers(method: int, succeeded: bool, rich: bool) -> bool:
     """
@@ -407,7 +428,7 @@ def every_response_carries_all_headers(method: int, succeeded: bool, rich: bool)
     return _check(None, None, None, None, 300, False, False, False, False, False, False, False, method, succeeded)
 
 
-@cond(q=600, t=1800, tiers=("thorough",), stubs=_STUBS, encoded=ENCODED, replay=_replay_real_app, signature=_SIG,
+@cond(q=600, t=1800, tiers=("thorough",), stubs=_STUBS, encoded=ENCODED, replay=_replay_item, signature=_SIG,
       bound="full product: which limits are configured (16) x upload provider x storage x compression x sticky x echo x proof x introspection (2048 configurations), fixed values")
 def capability_headers_equal_configuration(has_req: bool, has_resp: bool, has_ext: bool, has_up: bool, storage: bool, provider: bool, compression: bool,
                                            sticky: bool, echo: bool, proof: bool, introspect: bool) -> bool:  # fmt: skip
